@@ -18,11 +18,13 @@ import (
 // checkDroppedErrors: "errors of the repository's own functions are not newly dropped". For every call to a function of
 // this module whose last result is an error, the error must be used (tested, returned, stored). The call sites that
 // drop it on the confirmed tree were read one by one and are frozen in golden/dropped_errors.json as
-// (calling package → callee) with their count; cleanup calls (Close / GracefulClose) are not counted. A new pair, or
-// more drops of a tabled pair, is a violation: the usual way an error-handling slip enters (an `if err != nil` removed
-// while the call stays, `_ =` added to silence a linter, a result assigned and never looked at).
+// (calling package → callee) with the number of dropping and of testing sites; cleanup calls (Close / GracefulClose) are
+// not counted. A violation is a pair the package never dropped before, or a tabled pair with more dropping and fewer
+// testing sites than confirmed — the usual way an error-handling slip enters (an `if err != nil` removed while the call
+// stays, `_ =` added to silence a linter, a result assigned and never looked at). Merely repeating a reviewed
+// best-effort call (a refusal sent to a peer from two branches instead of one) is not.
 func checkDroppedErrors(c *engine.Ctx, rule string, pkgs ...string) {
-	c.Rule(rule, "in "+strings.Join(pkgs, ", ")+": the error result of a call to a function of this module is used; the drops confirmed by reading are tabled per (calling package → callee) in golden/dropped_errors.json and may not grow")
+	c.Rule(rule, "in "+strings.Join(pkgs, ", ")+": the error result of a call to a function of this module is used; the drops confirmed by reading are tabled per (calling package → callee) in golden/dropped_errors.json; a new pair, or a tabled pair with more dropping and fewer testing sites, is a violation")
 	p := c.P
 	errT := types.Universe.Lookup("error").Type()
 	inScope := func(path string) bool {
@@ -39,6 +41,7 @@ func checkDroppedErrors(c *engine.Ctx, rule string, pkgs ...string) {
 		fn  string
 	}
 	found := map[string][]drop{}
+	usedN := map[string]int{}
 	calls := 0
 	for _, f := range p.RepoFuncs() {
 		if f.Pkg == nil || !inScope(f.Pkg.Pkg.Path()) {
@@ -82,23 +85,31 @@ func checkDroppedErrors(c *engine.Ctx, rule string, pkgs ...string) {
 					}
 				}
 			}
+			k := strings.TrimPrefix(f.Pkg.Pkg.Path(), engine.ModPath+"/") + " -> " + strings.TrimPrefix(o.Pkg().Path(), engine.ModPath+"/") + "." + o.Name()
 			if used {
+				usedN[k]++
 				return
 			}
-			k := strings.TrimPrefix(f.Pkg.Pkg.Path(), engine.ModPath+"/") + " -> " + strings.TrimPrefix(o.Pkg().Path(), engine.ModPath+"/") + "." + o.Name()
 			found[k] = append(found[k], drop{in.Pos(), p.FuncName(f)})
 		})
 	}
 	path := filepath.Join(verifDirOf(), "golden", "dropped_errors.json")
-	golden := map[string]int{}
+	type tabled struct {
+		Dropped int `json:"dropped"`
+		Used    int `json:"used"`
+	}
+	golden := map[string]tabled{}
 	if b, err := os.ReadFile(path); err == nil {
 		_ = json.Unmarshal(b, &golden)
 	}
 	if os.Getenv("FRPSA_WRITE_GOLDEN") == "1" {
 		for k, v := range found {
-			if len(v) > golden[k] {
-				golden[k] = len(v)
+			g := golden[k]
+			if len(v) > g.Dropped {
+				g.Dropped = len(v)
 			}
+			g.Used = usedN[k]
+			golden[k] = g
 		}
 		b, _ := json.MarshalIndent(golden, "", " ")
 		_ = os.WriteFile(path, b, 0o644)
@@ -110,16 +121,24 @@ func checkDroppedErrors(c *engine.Ctx, rule string, pkgs ...string) {
 	sort.Strings(keys)
 	for _, k := range keys {
 		ds := found[k]
-		allowed := golden[k]
+		g, isTabled := golden[k]
 		var facts []string
 		for _, d := range ds {
 			facts = append(facts, d.fn+" at "+p.Pos(d.pos))
 		}
-		if len(ds) > allowed {
-			c.Violate("dropped:"+k, ds[len(ds)-1].pos, facts, "the error of %s is dropped at %d site(s) of package %s, %d confirmed: a failure of that call now goes unnoticed (is the result still tested?)",
-				k[strings.Index(k, "-> ")+3:], len(ds), k[:strings.Index(k, " ->")], allowed)
-		} else {
-			c.Hold("dropped:"+k, ds[0].pos, len(ds), facts, "tabled drop(s): %d of %d allowed", len(ds), allowed)
+		callee, pkg := k[strings.Index(k, "-> ")+3:], k[:strings.Index(k, " ->")]
+		switch {
+		case !isTabled:
+			c.Violate("dropped:"+k, ds[len(ds)-1].pos, facts, "the error of %s is dropped at %d site(s) of package %s, which never dropped it on the confirmed tree: a failure of that call now goes unnoticed",
+				callee, len(ds), pkg)
+		case len(ds) > g.Dropped && usedN[k] < g.Used:
+			// more drops AND fewer tested calls: a call whose error was handled has become one whose error is not
+			c.Violate("dropped:"+k, ds[len(ds)-1].pos, facts, "the error of %s is dropped at %d site(s) of package %s (%d confirmed) while the sites that test it fell from %d to %d: a failure of that call now goes unnoticed (is the result still tested?)",
+				callee, len(ds), pkg, g.Dropped, g.Used, usedN[k])
+		default:
+			// a reviewed best-effort call (a reply to a peer that is being refused, a notification): further sites of the
+			// same convention are not findings as long as every site that tested the error still does
+			c.Hold("dropped:"+k, ds[0].pos, len(ds), facts, "tabled best-effort call: %d drop(s) (%d confirmed), %d tested site(s) (%d confirmed)", len(ds), g.Dropped, usedN[k], g.Used)
 		}
 	}
 	c.Check(calls >= 10, "dropped:calls-seen", token.NoPos, calls, nil, fmt.Sprintf("positive control: %d calls to error-returning functions of this module examined", calls))
